@@ -1,7 +1,7 @@
 (* C06 — property theorems (statements only; proofs in Proofs*.v) *)
 From Coq Require Import NArith List Bool Arith.
 Import ListNotations.
-From LTV.C06 Require Import ParamsGen Model Proofs ProofsInv ProofsRun ProofsOcc ProofsFull ProofsRetry ProofsKs.
+From LTV.C06 Require Import ParamsGen Model Proofs ProofsInv ProofsRun ProofsOcc ProofsFull ProofsRetry ProofsKs ProofsKs2 ProofsKs3.
 
 Theorem params_ok_now : params_ok = true.
 Proof. exact Proofs.params_ok_now. Qed.
@@ -36,28 +36,61 @@ Theorem strict_stream_policy_refuted :
 Proof. exact Proofs.strict_stream_policy_refuted. Qed.
 Print Assumptions strict_stream_policy_refuted.
 
-(* PARTIAL: alignment of both keystreams is proved for the enumerated matrix (pads in
+(* finite cross-check with a protocol-following sender (sender-side indices on the cells): alignment
+   of the received stream, unread data and handed-over cipher for the enumerated matrix (pads in
    {0,1,255,511,512}^2, IA on/off, one segment per protocol flight), not yet for all pad lengths
    0..512 and all segmentations by induction. *)
-Theorem keystream_aligned_partial :
+Theorem keystream_aligned_matrix :
   forall incoming p o pa pb ia,
     In p all_policies -> In o all_offers -> In pa [0; 1; 255; 511; 512] -> In pb [0; 1; 255; 511; 512] ->
     aligned_of (negotiate incoming p o pa pb ia 0) = true.
 Proof. exact Proofs.keystream_aligned_partial. Qed.
-Print Assumptions keystream_aligned_partial.
+Print Assumptions keystream_aligned_matrix.
 
-(* PARTIAL (inductive core of keystream_aligned, for every window, input and read size): with the
-   ghost stream offsets (nread, dstart), KC s says that the byte at stream offset q in the window
-   has been decrypted exactly once with keystream index q - dstart if dstart <= q < dstart + didx
-   and never otherwise.  fill_read_buffer preserves KC, keeps never-decrypted input never-decrypted,
-   and keeps the cipher frontier at the end of the stream, PROVIDED a decrypting read happens with
-   the frontier at the end of what was read so far; EncryptionInfo::decrypt(position + a, n)
-   preserves KC when called at the frontier.  MISSING for the full theorem: the per-state argument
-   that the read state machine only decrypts at the frontier (READ_ENC_SKEY, outgoing
-   READ_ENC_NEGOT / READ_ENC_PAD casework) and the lifting to runs; until then alignment over all
-   pad lengths and segmentations rests on keystream_aligned_partial (enumerated matrix) and on
-   the correspondence runs (every cut 1..19 of the negotiation block, PadB 506..512, byte-wise). *)
-Theorem keystream_fill_aligned_partial : forall size s k eof s1 k1 b,
+(* keystream_aligned, by induction.  Ghost stream offsets: nread s = bytes read from the socket so
+   far, the byte at window index j has stream offset (nread s - occupancy) + j, dstart s = offset of
+   the byte at which initialize_decrypt was called (the byte after the SKEY hash for incoming, the
+   first byte of the sync match ENCRYPT(VC) for outgoing - wherever PadA/PadB of ANY length 0..512
+   put it).  For EVERY policy, direction, input (bytes nobody has decrypted yet), segmentation and
+   close timing, in every reachable state InvK holds: KC - the byte at stream offset q has been
+   decrypted exactly once with keystream index q - dstart if dstart <= q < dstart + didx and never
+   otherwise - plus, per state, that the cipher is only ever advanced at that frontier; bytes
+   coalesced with the handshake and left unread at success are covered (KC of the final window),
+   and when the cipher is handed to the connection still valid (RC4 stream) it stands exactly at
+   the end of what has been read (keystream_handover): the first byte the connection reads gets the
+   next index.  sender_cells_ok turns this into "decrypts to the plaintext" for any sender that
+   encrypted byte q with index q - dstart.  NOT covered inductively: that in plaintext-stream mode
+   the frontier stops exactly at the end of PadD / IA (matrix theorem + correspondence), and the
+   sender-side start coinciding with dstart for a protocol-following peer (by inspection of
+   read_encryption_sync / skey: the same byte). *)
+Theorem keystream_aligned : forall bfb incoming p segs, fresh_segs segs ->
+  postK bfb (run bfb (Cont (if (incoming : bool) then init_in p else init_out p) []) segs).
+Proof. exact ProofsKs3.keystream_aligned. Qed.
+Print Assumptions keystream_aligned.
+
+Theorem keystream_exactly_once : forall bfb incoming p segs s k, fresh_segs segs ->
+  (run bfb (Cont (if (incoming : bool) then init_in p else init_out p) []) segs = Cont s k \/
+   run bfb (Cont (if (incoming : bool) then init_in p else init_out p) []) segs = Done s k) ->
+  forall j, j < length (buf s) ->
+    dec (nth j (buf s) dcell) = expd (dstart s) (didx s) (nread s - length (buf s) + j).
+Proof. exact ProofsKs3.keystream_exactly_once. Qed.
+Print Assumptions keystream_exactly_once.
+
+Theorem keystream_handover : forall bfb incoming p segs s k, fresh_segs segs ->
+  run bfb (Cont (if (incoming : bool) then init_in p else init_out p) []) segs = Done s k ->
+  dvalid s = true -> dstart s + didx s = nread s.
+Proof. exact ProofsKs3.keystream_handover. Qed.
+Print Assumptions keystream_handover.
+
+Theorem sender_cells_ok : forall s j, KC s -> j < L s ->
+  let c := nth j (buf s) dcell in let q := o0 s + j in
+  (forall v, dstart s <= q -> q < dstart s + didx s -> ck c = Enc (q - dstart s) v -> cell_ok c = true) /\
+  (q < dstart s \/ dstart s + didx s <= q -> is_clr c = true -> cell_ok c = true).
+Proof. exact ProofsKs3.sender_cells_ok. Qed.
+Print Assumptions sender_cells_ok.
+
+(* the two operation lemmas the induction rests on *)
+Theorem keystream_fill_aligned : forall size s k eof s1 k1 b,
   KC s -> fresh k ->
   (dvalid s = true -> L s < size -> dstart s + didx s = nread s) ->
   fill size s k eof = FOk s1 k1 b ->
@@ -66,13 +99,13 @@ Theorem keystream_fill_aligned_partial : forall size s k eof s1 k1 b,
   (dvalid s = true -> dstart s + didx s = nread s -> dstart s1 + didx s1 = nread s1) /\
   (size <= L s -> s1 = s).
 Proof. exact ProofsKs.fill_K. Qed.
-Print Assumptions keystream_fill_aligned_partial.
+Print Assumptions keystream_fill_aligned.
 
-Theorem keystream_decrypt_aligned_partial : forall s a n, KC s -> a + n <= L s -> dstart s + didx s = o0 s + a ->
+Theorem keystream_decrypt_aligned : forall s a n, KC s -> a + n <= L s -> dstart s + didx s = o0 s + a ->
   KC (dec_range s a n) /\ dstart (dec_range s a n) + didx (dec_range s a n) = o0 s + a + n /\
   o0 (dec_range s a n) = o0 s.
 Proof. exact ProofsKs.KC_dec_range. Qed.
-Print Assumptions keystream_decrypt_aligned_partial.
+Print Assumptions keystream_decrypt_aligned.
 
 (* buffer_safe, in full.  For EVERY policy, direction, input cell sequence, segmentation and close
    timing (run = segments fed one after the other, each optionally followed by the peer closing):
